@@ -9,7 +9,10 @@ use std::collections::hash_map::Entry;
 use std::collections::HashMap;
 use std::sync::Arc;
 use std::time::SystemTime;
+#[cfg(not(deltio_verif))]
 use tokio::sync::{mpsc, oneshot};
+#[cfg(deltio_verif)]
+use {crate::verif::mpsc, tokio::sync::oneshot};
 
 /// Requests for the `TopicActor`.
 pub enum TopicRequest {
@@ -86,8 +89,12 @@ impl TopicActor {
             deleted: false,
         };
 
+        #[cfg(deltio_verif)]
+        crate::verif::label(|| format!("topic-actor:{}", actor.info.name));
         tokio::spawn(async move {
             while let Some(request) = receiver.recv().await {
+                #[cfg(deltio_verif)]
+                crate::verif::point("topic.receive");
                 actor.receive(request).await;
             }
         });
@@ -191,6 +198,8 @@ impl TopicActor {
         for subscription in self.subscriptions.values() {
             // Spawn a future to post messages to each subscription.
             let subscription = Arc::clone(subscription);
+            #[cfg(deltio_verif)]
+            crate::verif::label(|| format!("post:{}", subscription.name));
             set.spawn({
                 // It's unfortunate that we need to clone the vec here, but since it contains
                 // references only it should be ok.
